@@ -152,11 +152,43 @@ ProcessEv ==
 \* flow.Adopt(t) on a flow over parent p that has already adopted `prior`
 AdoptEv ==
   /\ Query("Adopt") /\ Ev.p \in Known /\ Ev.t \in DOMAIN txinfo
-  /\ Ev.ok = TxAdmissible(Ev.p, Append(Ev.prior, Ev.t), Append(Ev.priorrevs, FALSE), Len(Ev.prior) + 1)
+  /\ LET c == AdmitClass(Ev.p, Append(Ev.prior, Ev.t), Append(Ev.priorrevs, FALSE), Len(Ev.prior) + 1) IN
+     /\ Ev.ok = (c = "ok")
+     /\ Ev.cls = c             \* the error class decides whether the pool keeps or drops the tx
+
+\* TxObject.Evaluate (the pool's admission rule) for tx t against head h
+PoolEv ==
+  /\ Query("Pool") /\ Ev.h \in Known /\ Ev.t \in DOMAIN txinfo
+  /\ Ev.cls = PoolClass(Ev.h, Ev.t)
+
+\* the store was closed and opened again (fresh MuxDB, fresh Repository over the same key-value engine)
+ReopenEv ==
+  /\ Query("Reopen")
+  /\ Ev.best = best /\ Ev.g \in Known /\ Num(Ev.g) = 0
+  /\ SeqSet(Ev.heads) = heads /\ Len(Ev.heads) = Cardinality(heads)
+  /\ \A i \in 1..(Len(Ev.heads) - 1) : Num(Ev.heads[i]) >= Num(Ev.heads[i + 1])
+  /\ \A b \in Known : Num(b) <= Ev.maxnum
+  /\ \E b \in Known : Num(b) = Ev.maxnum              \* GetMaxBlockNum
+
+ConflEv ==
+  /\ Query("Confl")
+  /\ \A i \in DOMAIN Ev.q : /\ SeqSet(Ev.q[i].ids) = GetConflicts(Ev.q[i].n)
+                             /\ Len(Ev.q[i].ids) = ScanConflicts(Ev.q[i].n)
+                             /\ Ev.q[i].count = ScanConflicts(Ev.q[i].n)
+
+\* keys written straight into chain.txi through the key-value store: an 8-byte filter key, and an index entry of a
+\* FOREIGN id (never a transaction of any block) that shares those 8 bytes
+PlantEv ==
+  /\ Ev.e = "Plant"
+  /\ Ev.x \notin DOMAIN txinfo
+  /\ filter' = filter \cup {Ev.pfx}
+  /\ txi' = txi \cup {[t |-> Ev.x, num |-> Ev.num, conflicts |-> Ev.conflicts, index |-> 0, rev |-> FALSE]}
+  /\ UNCHANGED <<blocks, idx, heads, best, txinfo, rd, anc>>
 
 Next == /\ l <= Len(Trace) /\ l' = l + 1
         /\ (ResetEv \/ TxEv \/ AddEv \/ ByNumEv \/ HasBlkEv \/ ExclEv \/ TsEv \/ HeadsEv \/ LookupEv
-            \/ RStartEv \/ ReadEv \/ SubStartEv \/ SubDrainEv \/ ProcessEv \/ AdoptEv)
+            \/ RStartEv \/ ReadEv \/ SubStartEv \/ SubDrainEv \/ ProcessEv \/ AdoptEv \/ PoolEv
+            \/ ReopenEv \/ ConflEv \/ PlantEv)
 Spec == Init /\ [][Next]_tvars
 
 \* invariants quantify over every known block while the tree is small; afterwards over best, the block just stored and
@@ -166,7 +198,7 @@ TraceCheckHeads ==
   ELSE {best} \cup (IF l > 1 /\ Trace[l - 1].e = "Add" THEN GetConflicts(Trace[l - 1].num) ELSE {})
 
 \* the store changes only in Add (and Reset); its invariants need no re-evaluation after a query or a read
-StoreChanged == l > 1 /\ Trace[l - 1].e \in {"Add", "Reset"}
+StoreChanged == l > 1 /\ Trace[l - 1].e \in {"Add", "Reset", "Plant"}
 T_ByNumberIsAncestor == StoreChanged => ByNumberIsAncestor
 T_ExcludeIsDifference == StoreChanged => ExcludeIsDifference
 T_TxBelongsToHeadChain == StoreChanged => TxBelongsToHeadChain
@@ -176,6 +208,10 @@ T_NoDupOnChain == StoreChanged => NoDupOnChain
 T_WindowOk == StoreChanged => WindowOk
 T_DepsOk == StoreChanged => DepsOk
 T_LookupAgrees == StoreChanged => LookupAgrees
+
+\* used only by the binding demonstration (Trace_ChainIndex_demo.cfg): false as soon as the recorded tree forks, so that
+\* the path "invariant violated on a recorded trace -> located -> signature invariant:<name>" is exercised on every run
+DemoNoFork == \A b \in Known : blocks[b].conflicts = 0
 
 Progress == HWM(l)
 TraceAccepted == Accepted(Len(Trace))
